@@ -170,7 +170,10 @@ def gen_program(rng):
         for _ in range(n):
             r = rng.random()
             if r < 0.12 and depth < 2:
-                out.append(("for", rng.choice([0, 1, 2, 3]), stmts(depth + 1, rng.choice([1, 2, 3]))))
+                inner = stmts(depth + 1, rng.choice([1, 2, 3]))
+                if not inner:       # an empty scf.for is erased by the rewriter's dead-code elimination
+                    inner = [("gen", [], rng.choice(pool), "plain")]
+                out.append(("for", rng.choice([0, 1, 2, 3]), inner))
             elif r < 0.2:
                 a, b = rng.choice(vals), rng.choice(vals)
                 if a != b:
@@ -513,6 +516,93 @@ def check_spaces(p):
     return fails[:1]
 
 
+
+# ==========================================================================================
+# (iii) memory spaces after set-memory-space: more function shapes; (i) transposed constants as a pass
+# ==========================================================================================
+def _fill(out, ty, ind="  "):
+    return (f'{ind}linalg.generic {{indexing_maps = [affine_map<(i) -> (i)>], iterator_types = ["parallel"]}} '
+            f"outs({out} : {ty}) {{\n{ind}^bb0(%o : i32):\n{ind}  %k = arith.constant 7 : i32\n{ind}  linalg.yield %k : i32\n{ind}}}\n")
+
+
+def gen_space_program(rng):
+    """Function shapes that matter for memory spaces: private functions (arguments stay untagged), public
+    functions with tagged / untagged arguments and untagged memref results, allocations."""
+    vis = rng.choice(["public", "public", "private"])
+    nargs = rng.choice([0, 1, 2])
+    tags = [rng.choice(["", "", ', "L3"', ', "L1"']) for _ in range(nargs)]
+    result = rng.choice(["none", "alloc", "arg"]) if (nargs or True) else "none"
+    if result == "arg" and nargs == 0:
+        result = "alloc"
+    args = ", ".join(f"%a{i} : memref<16xi32{tags[i]}>" for i in range(nargs))
+    rty = None
+    body = ""
+    if result == "alloc":
+        rty = "memref<16xi32>"
+        body += '  %m = "memref.alloc"() <{operandSegmentSizes = array<i32: 0, 0>}> : () -> memref<16xi32>\n'
+        body += _fill("%m", "memref<16xi32>")
+    elif result == "arg":
+        rty = f"memref<16xi32{tags[0]}>"
+    for i in range(nargs):
+        body += _fill(f"%a{i}", f"memref<16xi32{tags[i]}>")
+    ret = f"  func.return {'%m' if result == 'alloc' else '%a0'} : {rty}\n" if rty else "  func.return\n"
+    sig = f" -> {rty}" if rty else ""
+    return {"text": f"func.func {vis} @f({args}){sig} {{\n{body}{ret}}}\n", "vis": vis, "tags": tags, "result": result}
+
+
+def _space_of(t):
+    s = str(t)
+    return "ML1" if '"L1"' in s else ("ML3" if '"L3"' in s else "MNone")
+
+
+def check_space_program(sp):
+    """Returns (failures, signature pairs (before, after)) on the real set-memory-space."""
+    mod = parse(sp["text"])
+    fn = [o for o in mod.ops if o.name == "func.func"][0]
+    before = [_space_of(t) for t in list(fn.function_type.inputs) + list(fn.function_type.outputs) if str(t).startswith("memref")]
+    run_set_memory_space(mod)
+    fails = []
+    fn = [o for o in mod.ops if o.name == "func.func"][0]
+    after = [_space_of(t) for t in list(fn.function_type.inputs) + list(fn.function_type.outputs) if str(t).startswith("memref")]
+    for op in mod.walk():
+        if op.name == "linalg.generic":
+            for v in op.operands:
+                if str(v.type).startswith("memref") and _space_of(v.type) != "ML1":
+                    fails.append(("operand-not-L1", {"type": str(v.type)}))
+    if sp["vis"] == "public":
+        for b, a in zip(before, after):
+            if a == "MNone":
+                fails.append(("signature-untagged", {"before": b, "after": a}))
+    return fails[:1], list(zip(before, after))
+
+
+def gen_transpose_case(rng):
+    d0, d1 = rng.choice([1, 2, 3, 4, 5]), rng.choice([1, 2, 3, 4, 8])
+    vals = [rng.randrange(-40, 40) for _ in range(d0 * d1)]
+    return d0, d1, vals
+
+
+def run_transpose_pass(d0, d1, vals):
+    """arith.constant tensor<d0 x d1> transposed by a linalg.generic: the real RemoveTransposeConstants pattern.
+    Returns the values of the constant that replaces the generic (row-major, shape d1 x d0)."""
+    from xdsl.pattern_rewriter import PatternRewriteWalker
+    from snaxc.transforms.frontend.remove_transpose_constants import RemoveTransposeConstants
+    rows = ", ".join("[" + ", ".join(str(vals[i * d1 + j]) for j in range(d1)) + "]" for i in range(d0))
+    text = (f"func.func @t() -> tensor<{d1}x{d0}xi32> {{\n"
+            f"  %c = arith.constant dense<[{rows}]> : tensor<{d0}x{d1}xi32>\n"
+            f"  %e = tensor.empty() : tensor<{d1}x{d0}xi32>\n"
+            "  %r = linalg.generic {indexing_maps = [affine_map<(x, y) -> (y, x)>, affine_map<(x, y) -> (x, y)>], "
+            f'iterator_types = ["parallel", "parallel"]}} ins(%c : tensor<{d0}x{d1}xi32>) outs(%e : tensor<{d1}x{d0}xi32>) {{\n'
+            "  ^bb0(%a : i32, %b : i32):\n    linalg.yield %a : i32\n"
+            f"  }} -> tensor<{d1}x{d0}xi32>\n  func.return %r : tensor<{d1}x{d0}xi32>\n}}\n")
+    mod = parse(text)
+    PatternRewriteWalker(RemoveTransposeConstants()).rewrite_module(mod)
+    consts = [o for o in mod.walk() if o.name == "arith.constant"]
+    gens = [o for o in mod.walk() if o.name == "linalg.generic"]
+    if gens or len(consts) != 1:
+        return None
+    return [int(x) for x in consts[0].value.get_values()]
+
 # ==========================================================================================
 # L1
 # ==========================================================================================
@@ -552,7 +642,34 @@ def correspondence(ctx):
         tt.append(f"({zlist(arr)}, {zlit(cols)}, {zlit(rows)}, {zlist(res)})")
         tmeta.append({"cols": cols, "rows": rows, "arr": arr})
         ctx.count({"transpose": [cols, rows]}, cols > 1 and rows > 1, f"tt{arr}{cols}", "L1:transpose_tuple")
-    text = ("From Snax Require Import Base.Prelude Model.Tsl Model.C12Const.\n"
+    tp, tpm = [], []
+    for _ in range(ctx.n(40, 300)):
+        d0, d1, vals = gen_transpose_case(rng)
+        try:
+            res = run_transpose_pass(d0, d1, vals)
+        except Exception as e:
+            dis.append({"name": "L1:transpose-pass-raised", "case": [d0, d1], "detail": repr(e)[:200]})
+            continue
+        if res is None:
+            dis.append({"name": "L1:transpose-pass-did-not-fold", "case": [d0, d1, vals]})
+            continue
+        tp.append(f"({zlist(vals)}, {zlit(d0)}, {zlit(d1)}, {zlist(res)})")
+        tpm.append({"shape": [d0, d1], "values": vals, "result": res})
+        ctx.count({"transpose-pass": [d0, d1]}, d0 != d1 and d0 > 1 and d1 > 1, f"tp{d0}{d1}{vals}", "L1:transpose_pass")
+    sg, sgm = [], []
+    for _ in range(ctx.n(60, 400)):
+        sp = gen_space_program(rng)
+        try:
+            _, pairs = check_space_program(sp)
+        except Exception as e:
+            dis.append({"name": "L1:set-memory-space-raised", "case": sp["text"], "detail": repr(e)[:200]})
+            continue
+        if sp["vis"] == "public":
+            for b, a in pairs:
+                sg.append(f"({b}, {a})")
+                sgm.append(sp["text"])
+        ctx.count({"spaces": sp["text"][:200]}, True, "sp" + sp["text"], f"L1:spaces:{sp['vis']}")
+    text = ("From Snax Require Import Base.Prelude Model.Tsl Model.C12Const Model.C12Casts.\n"
             f"Definition cases := {coqlist(cases)}.\n"
             "Definition oeqb (a b : option (option (list Z))) := match a, b with Some (Some x), Some (Some y) => "
             "list_eqb Z.eqb x y | Some None, Some None => true | None, None => true | _, _ => false end.\n"
@@ -562,9 +679,20 @@ def correspondence(ctx):
             "match r with Some (Some _) => mixed_radix_sorted l | _ => true end end) cases.\n"
             f"Definition tcases := {coqlist(tt)}.\n"
             "Eval vm_compute in failing (fun c : list Z * Z * Z * list Z => match c with (a, co, ro, r) => "
-            "list_eqb Z.eqb (transpose_tuple a co ro) r end) tcases.\n")
+            "list_eqb Z.eqb (transpose_tuple a co ro) r end) tcases.\n"
+            f"Definition pcases := {coqlist(tp)}.\n"
+            "Eval vm_compute in failing (fun c : list Z * Z * Z * list Z => match c with (a, d0, d1, r) => "
+            "list_eqb Z.eqb (transpose_tuple a d0 d1) r end) pcases.\n"
+            f"Definition scases : list (mspace * mspace) := {coqlist(sg)}.\n"
+            "Eval vm_compute in failing (fun c : mspace * mspace => mspace_eqb (func_space (fst c)) (snd c)) scases.\n")
     ok, out = vlib.coq_eval("c12const", text, timeout=600)
     lists = vlib.parse_all_eval_lists(out)
+    if ok and len(lists) == 5:
+        for idx in lists[3]:
+            dis.append({"name": "L1:transpose_pass", "case": tpm[idx]})
+        for idx in lists[4]:
+            dis.append({"name": "L1:func_space", "case": sgm[idx], "coq_case": sg[idx]})
+        lists = lists[:3]
     if not ok or len(lists) != 3:
         return dis + [{"name": "cases-file", "detail": out[-2000:]}]
     for idx in lists[0]:
@@ -650,6 +778,28 @@ def search(ctx, deep=False):
         for what, detail in check_constant(ts, bits, vals):
             raw.append({"what": what, "layout": ts, "bits": bits, "values": vals, "detail": detail, "klass": None})
         ctx.count({"L2const": ts}, total > 1, f"l2c{ts}{vals}", "L2:const")
+    for _ in range(ctx.n(60, 500)):
+        d0, d1, vals = gen_transpose_case(rng)
+        try:
+            res = run_transpose_pass(d0, d1, vals)
+        except Exception as e:
+            res = None
+            raw.append({"what": "transpose-pass-raised", "transpose": [d0, d1, vals], "detail": repr(e)[:200], "klass": None})
+            continue
+        want = [vals[j * d1 + i] for i in range(d1) for j in range(d0)]      # out[i][j] = in[j][i]
+        if res != want:
+            raw.append({"what": "transposed-constant", "transpose": [d0, d1, vals], "klass": None,
+                        "detail": {"expected": want, "got": res}})
+        ctx.count({"L2transpose": [d0, d1]}, d0 != d1, f"l2t{d0}{d1}{vals}", "L2:transpose_pass")
+    for _ in range(ctx.n(80, 600)):
+        sp = gen_space_program(rng)
+        try:
+            fails, _ = check_space_program(sp)
+        except Exception as e:
+            fails = [("set-memory-space-raised", {"error": repr(e)[:200]})]
+        for what, detail in fails:
+            raw.append({"what": what, "space_program": sp, "text": sp["text"], "detail": detail, "klass": None})
+        ctx.count({"L2spaces": sp["text"][:200]}, True, "l2s" + sp["text"], f"L2:spaces:{sp['vis']}")
     n = ctx.n(160, 4000) * (3 if deep else 1)
     pend = []
     for p in CORPUS + [gen_program(rng) for _ in range(n)]:
@@ -706,6 +856,19 @@ def replay(ctx, obj):
     if not f:
         print("no failing input recorded; broken obligations:", obj.get("no_longer_checks"))
         return 1
+    if "transpose" in f:
+        d0, d1, vals = f["transpose"]
+        res = run_transpose_pass(d0, d1, vals)
+        want = [vals[j * d1 + i] for i in range(d1) for j in range(d0)]
+        print("shape", d0, "x", d1, "in", vals, "\nexpected", want, "\ngot     ", res)
+        return 0 if res == want else 1
+    if "space_program" in f:
+        print(f["text"])
+        fails, pairs = check_space_program(f["space_program"])
+        print("signature spaces (before, after):", pairs)
+        for r in fails:
+            print("FAIL", r)
+        return 1 if fails else 0
     if "program" in f:
         p = f["program"]
         print(program_text(p))
